@@ -211,11 +211,14 @@ pub fn run_generic(cx: &mut Ctx, fmt: Fmt) {
             check_compress(c, fmt, &lzgen::de_bruijn(11), "de_bruijn(2,11)");
         });
     }
-    if !cx.a.quick() && !miri && cx.a.scale >= 0.99 {
-        cx.case("large_zeros_2^24-1", |c| {
-            c.sit("large_input");
+    if !miri && cx.a.scale >= 0.49 {
+        // the largest input the 24-bit length field can describe
+        cx.case("largest_input_2^24-1", |c| {
+            c.sit("largest_input");
             check_compress(c, fmt, &vec![0u8; (1 << 24) - 1], "zeros(2^24-1)");
         });
+    }
+    if !cx.a.quick() && !miri && cx.a.scale >= 0.99 {
         cx.case("large_periodic_4MiB", |c| {
             c.sit("large_input");
             let mut rng = crate::prng::Rng::new(4);
@@ -249,7 +252,7 @@ pub fn run_generic(cx: &mut Ctx, fmt: Fmt) {
     }
 }
 
-pub const REQUIRED: &[&str] = &["small_alphabet_exhaustive", "boundary_lengths", "ref_disp_4096", "ref_overlapping", "ref_len_18", "ends_inside_flag_group", "window_edge_period"];
+pub const REQUIRED: &[&str] = &["small_alphabet_exhaustive", "boundary_lengths", "ref_disp_4096", "ref_overlapping", "ref_len_18", "ends_inside_flag_group", "window_edge_period", "largest_input"];
 
 pub fn run(cx: &mut Ctx) {
     if !cfg!(miri) {
